@@ -76,6 +76,13 @@ def getterStep (sent : Byte) : List String → Byte × List String
           | some c => [showRun sent false (strerrorR errnoTable c) size]
           | none => ["bad-op"])
       | _ => ["bad-op"])
+  | ["getter", "cwd", sz, a, res] =>
+    -- `res`: the buffer as the failed first getcwd left it (glibc fallback for paths ≥ PATH_MAX)
+    (sent, match unhex a, unhex res with
+      | some v, some r =>
+        let residue : Writes := (r.zipIdx.filter (fun p => p.1 ≠ sent)).map fun p => (p.2, p.1)
+        [showRun sent true (fun n => if n = nat! sz then cwdR v n residue else cwd v n) (nat! sz)]
+      | _, _ => ["bad-op"])
   | ["getter", "homedir", sz, h, pw] =>
     (sent, match optVal h, unhex pw with
       | some hv, some p => [showRun sent true (osHomedir hv p) (nat! sz)]
